@@ -587,8 +587,11 @@ func (Prop) RunUnit(env *kernel.Env, unit int) {
 						c = Corruption{Kind: "truncate", Pos: p}
 					}
 					tps := jsonTransports
-					if spec.Docs == 1 && p < len(strings.TrimRight(text, " \t\r\n")) {
-						// --argjson reads exactly one document: only faults inside it are seen
+					first := strings.TrimLeft(text, " \t\r\n")
+					if spec.Docs == 1 && p < len(strings.TrimRight(text, " \t\r\n")) && p > len(text)-len(first) && strings.ContainsRune("[{\"", rune(first[0])) {
+						// --argjson reads exactly one document and ignores what follows it: only faults
+						// inside a container or a string are certain to be seen (a fault inside a number
+						// or a literal can leave a complete shorter document followed by garbage)
 						tps = append([]string{"argjson", "argjson"}, jsonTransports...)
 					}
 					d := &Data{Format: "json", Text: spec, Corrupt: c, Transport: kernel.Pick(r, tps)}
